@@ -85,7 +85,8 @@ Theorem C05_code_shape :
   G_pool_shape.scan_no_early_exit = true /\
   G_pool_shape.hard_handler_checks_ready_first = true /\
   G_pool_shape.hard_handler_kills_owner = true /\
-  G_pool_shape.apply_hard_defaults_to_pool = true.
+  G_pool_shape.apply_hard_defaults_to_pool = true /\
+  G_pool_shape.interrupted_task_always_reraised = true.
 Proof. repeat split; reflexivity. Qed.
 Print Assumptions C05_code_shape.
 
